@@ -131,7 +131,9 @@ def rand_create(rng):
 
 # ----------------------------------------------------------------- end to end
 GOOD_LINES = ["int user_%d = %d;", "  call user_sub_%d(%d)", "    // user comment %d %d   ", "", "x%d = y(%d)  ",
-              "  if (a%d < %d) {", "}", "  é%d = %d", "return %d + %d;"]
+              "  if (a%d < %d) {", "}", "  é%d = %d", "return %d + %d;",
+              # indented lines whose first non-blank character is a formatting metacharacter (in scope: not column one)
+              "      + b%d * %d", "    - c%d - %d;", "  @x%d %d", "   ^y%d %d", "  # pragma %d %d"]
 TAB_LINES = ["int\tt%d = %d;"]
 PLUS_LINES = ["s%d = a%d +"]
 
